@@ -32,6 +32,49 @@ def move_mesh(mesh, R, t):
     mesh._Notify("The mesh has been modified")
 
 
+def api_steps(case):
+    """the same rigid motion as transform(case), as a sequence of Mesh API calls:
+    x -> R_rot (S x) + t   (reflection through the plane {n.x = 0} first, then rotation about the
+    origin, then translation)"""
+    steps = []
+    if case.get("reflect"):
+        steps.append(("Symmetry", ((0.0, 0.0, 0.0), tuple(float(v) for v in case["reflect"]))))
+    if case.get("angle"):
+        steps.append(("Rotate", (float(case["angle"]), (0.0, 0.0, 0.0), tuple(float(v) for v in case.get("axis", [0, 0, 1])))))
+    if case.get("translate"):
+        steps.append(("Translate", tuple(float(v) for v in case["translate"])))
+    return steps
+
+
+def step_matrix(step):
+    name, args = step
+    if name == "Symmetry":
+        n = np.asarray(args[1], dtype=float)
+        n = n / np.linalg.norm(n)
+        p = np.asarray(args[0], dtype=float)
+        S = np.eye(3) - 2 * np.outer(n, n)
+        return S, p - S @ p
+    if name == "Rotate":
+        Rm = rot_matrix(args[2], args[0])
+        c = np.asarray(args[1], dtype=float)
+        return Rm, c - Rm @ c
+    return np.eye(3), np.asarray(args, dtype=float)
+
+
+def move_mesh_api(mesh, case, report=None):
+    """apply the motion with mesh.Symmetry / Rotate / Translate; after each call compare the
+    coordinates of EVERY element group (all dimensions) with the transformed coordinates"""
+    for step in api_steps(case):
+        before = {k: np.array(g.coord, dtype=float) for k, g in mesh.dict_groupElem.items()}
+        getattr(mesh, step[0])(*step[1])
+        Rm, tv = step_matrix(step)
+        for k, g in mesh.dict_groupElem.items():
+            exp = before[k] @ Rm.T + tv
+            e = float(np.abs(np.asarray(g.coord, dtype=float) - exp).max() / max(1.0, np.abs(exp).max()))
+            if report is not None and e > report.get("err", 0.0):
+                report.update({"err": e, "group": str(k), "dim": int(g.dim), "step": step[0]})
+
+
 def rel(a, b):
     a, b = np.asarray(a, dtype=float), np.asarray(b, dtype=float)
     return float(np.abs(a - b).max() / max(np.abs(b).max(), 1e-300))
@@ -73,38 +116,96 @@ def solve_continuum(case, moved):
     x0 = mesh.coord.copy()
     left = np.where(np.abs(x0[:, 0]) < 1e-9)[0]
     right = np.where(np.abs(x0[:, 0] - L) < 1e-9)[0]
+    top = np.where(np.abs(x0[:, 1] - h) < 1e-9)[0]
+    motion = {}
     if moved:
-        move_mesh(mesh, R, t)
+        if case.get("build", "coords") == "api":
+            mesh = mesh.copy()
+            move_mesh_api(mesh, case, motion)
+        else:
+            move_mesh(mesh, R, t)
     unknowns = ["x", "y", "z"][:dim]
+    loads = case.get("loads", "nodal")
+
+    def back(x, y, z):          # position on the moved mesh -> original position, shape (..., 3)
+        X = np.stack([np.asarray(x, dtype=float), np.asarray(y, dtype=float), np.asarray(z, dtype=float)], axis=-1)
+        return (X - t) @ R
+
     if case["kind"] == "thermal":
         mat = Models.Thermal(k=case.get("k", 2.5), c=1.0, thickness=1.0)
         simu = Simulations.Thermal(mesh, mat, verbosity=False)
-        simu.add_dirichlet(left, [case.get("T0", 3.0)], ["t"])
-        simu.add_neumann(right, [case.get("q", 1.7)], ["t"])
+        if loads == "field":
+            simu.add_dirichlet(left, [lambda x, y, z: 3.0 + 2.0 * back(x, y, z)[..., 1]], ["t"])
+            simu.add_lineLoad(right, [lambda x, y, z: 1.0 + 4.0 * back(x, y, z)[..., 1] ** 2], ["t"]) if dim == 2 else \
+                simu.add_surfLoad(right, [lambda x, y, z: 1.0 + 4.0 * back(x, y, z)[..., 1] ** 2], ["t"])
+        else:
+            simu.add_dirichlet(left, [case.get("T0", 3.0)], ["t"])
+            simu.add_neumann(right, [case.get("q", 1.7)], ["t"])
         sol = simu.Solve()
-        return np.asarray(sol, dtype=float).copy(), R, None
+        return np.asarray(sol, dtype=float).copy(), R, None, motion
     mat = build_material(case, R)
     simu = Simulations.Elastic(mesh, mat, verbosity=False)
-    u0 = R @ np.asarray(case.get("u0", [0.0, 0.0, 0.0]), dtype=float)
-    F = R @ np.asarray(case["F"], dtype=float)
-    simu.add_dirichlet(left, [float(x) for x in u0[:dim]], unknowns)
-    simu.add_neumann(right, [float(x) for x in F[:dim]], unknowns)
+    u0 = np.asarray(case.get("u0", [0.0, 0.0, 0.0]), dtype=float)
+    F = np.asarray(case["F"], dtype=float)
+    if loads == "field":
+        # Dirichlet values and tractions given as functions of the position on the (moved) mesh
+        def uD(k):
+            return lambda x, y, z: (R @ (u0[:, None] * (1.0 + back(x, y, z)[..., 1].reshape(1, -1))))[k].reshape(np.shape(x))
+
+        def trac(k):
+            return lambda x, y, z: (R @ (F[:, None] * (0.5 + back(x, y, z)[..., 1].reshape(1, -1) ** 2)))[k].reshape(np.shape(x))
+        simu.add_dirichlet(left, [uD(k) for k in range(dim)], unknowns)
+        if dim == 2:
+            simu.add_lineLoad(right, [trac(k) for k in range(dim)], unknowns)
+        else:
+            simu.add_surfLoad(right, [trac(k) for k in range(dim)], unknowns)
+        if case.get("pressure"):
+            simu.add_pressureLoad(top, float(case["pressure"]))
+    else:
+        u0m, Fm = R @ u0, R @ F
+        simu.add_dirichlet(left, [float(x) for x in u0m[:dim]], unknowns)
+        simu.add_neumann(right, [float(x) for x in Fm[:dim]], unknowns)
     sol = np.asarray(simu.Solve(), dtype=float).reshape(-1, dim).copy()
     W = float(simu.Result("Wdef"))
-    return sol, R, W
+    return sol, R, W, motion
 
 
 def run_continuum(case):
-    s1, _, W1 = solve_continuum(case, False)
-    s2, R, W2 = solve_continuum(case, True)
+    s1, _, W1, _ = solve_continuum(case, False)
+    s2, R, W2, motion = solve_continuum(case, True)
+    out = {}
+    if motion.get("err", 0.0) > 1e-12:
+        out["motion"] = motion
     if case["kind"] == "thermal":
-        return {"err": rel(s2, s1), "what": "temperature field", "n": int(s1.size), "sample": [float(s1[-1]), float(s2[-1])]}
+        out.update({"err": max(rel(s2, s1), motion.get("err", 0.0)), "err_T": rel(s2, s1), "what": "temperature field", "n": int(s1.size),
+                    "sample": [float(s1[-1]), float(s2[-1])]})
+        return out
     dim = case["dim"]
     back = s2 @ R[:dim, :dim]          # rows: R^T u'
     e = rel(back, s1)
     eW = abs(W2 - W1) / max(abs(W1), 1e-300)
-    return {"err": max(e, eW), "err_u": e, "err_W": eW, "what": "displacement (transformed back) and strain energy", "n": int(s1.size),
-            "sample": [s1[-1].tolist(), back[-1].tolist(), W1, W2]}
+    out.update({"err": max(e, eW, motion.get("err", 0.0)), "err_u": e, "err_W": eW, "what": "displacement (transformed back) and strain energy",
+                "n": int(s1.size), "sample": [s1[-1].tolist(), back[-1].tolist(), W1, W2]})
+    return out
+
+
+def run_motion(case):
+    """mesh.Translate / Rotate / Symmetry on a copy: every element group must carry the moved coordinates"""
+    from EasyFEA import Mesher
+    from EasyFEA.Geoms import Domain, Point
+    mesher = Mesher()
+    if case["dim"] == 2:
+        mesh = mesher.Mesh_2D(Domain(Point(0, 0), Point(2.0, 1.0), 0.5), [], case["elemType"])
+    else:
+        mesh = mesher.Mesh_Extrude(Domain(Point(0, 0), Point(2.0, 1.0), 0.7), [], [0, 0, 0.6], [2], case["elemType"])
+    m2 = mesh.copy()
+    rep = {}
+    move_mesh_api(m2, case, rep)
+    R, t = transform(case)
+    tot = float(np.abs(m2.coord - (mesh.coord @ R.T + t)).max())
+    orig = float(np.abs(mesh.coord - mesh.copy().coord).max())
+    return {"err": max(rep.get("err", 0.0), tot, orig), "motion": rep, "groups": sorted("%s(dim %d)" % (k, g.dim) for k, g in m2.dict_groupElem.items()),
+            "what": "coordinates of every element group after mesh.Symmetry/Rotate/Translate vs the transformed coordinates"}
 
 
 # ------------------------------------------------------------------------------ beams
@@ -113,57 +214,88 @@ def solve_beam(case, moved):
     from EasyFEA.Geoms import Domain, Point, Line
     dim = case["dim"]
     R, t = transform(case) if moved else (np.eye(3), np.zeros(3))
-    Lb, nL = 120.0, 4
+    det = float(np.linalg.det(R))
     b, h = 13.0, 9.0
     mesher = Mesher()
     section = mesher.Mesh_2D(Domain(Point(-b / 2, -h / 2), Point(b / 2, h / 2)))
-    d0 = np.asarray(case.get("dir", [1, 0, 0]), dtype=float)
-    d0 = d0 / np.linalg.norm(d0)
-    p1v = R @ np.zeros(3) + t
-    p2v = R @ (Lb * d0) + t
-    y0 = np.asarray(case.get("yAxis", [0, 1, 0]), dtype=float)
-    yv = R @ y0
-    p1, p2 = Point(*p1v), Point(*p2v)
-    line = Line(p1, p2, Lb / nL)
-    beam = Models.Beam.Isotropic(dim, line, section, 210000.0, 0.3, yAxis=tuple(yv))
-    mesh = mesher.Mesh_Beams([beam], elemType=case["elemType"])
-    st = Models.Beam.BeamStructure([beam])
+    if "points" in case:
+        pts0 = [np.asarray(p, dtype=float) for p in case["points"]]
+    else:
+        d0 = np.asarray(case.get("dir", [1, 0, 0]), dtype=float)
+        pts0 = [np.zeros(3), 120.0 * d0 / np.linalg.norm(d0)]
+    ptsv = [R @ p + t for p in pts0]
+    pts = [Point(*p) for p in ptsv]
+    beams = []
+    for p1, p2, q1, q2 in zip(pts[:-1], pts[1:], pts0[:-1], pts0[1:]):
+        kw = {}
+        if "yAxis" in case:
+            kw["yAxis"] = tuple(R @ np.asarray(case["yAxis"], dtype=float))
+        elif dim == 3:
+            # a definite section axis perpendicular to the member, moved with the structure
+            d = (q2 - q1) / np.linalg.norm(q2 - q1)
+            y0 = np.cross([0.3, -0.5, 0.8], d)
+            kw["yAxis"] = tuple(R @ (y0 / np.linalg.norm(y0)))
+        line = Line(p1, p2, float(np.linalg.norm(q2 - q1)) / case.get("nL", 3))
+        beams.append(Models.Beam.Isotropic(dim, line, section, 210000.0, 0.3, **kw))
+    mesh = mesher.Mesh_Beams(beams, elemType=case["elemType"])
+    st = Models.Beam.BeamStructure(beams)
     simu = Simulations.Beam(mesh, st, useTimoshenko=case.get("timo", False), verbosity=False)
-    simu.add_dirichlet(mesh.Nodes_Point(p1), [0] * simu.Get_dof_n(), simu.Get_unknowns())
+    mesh = simu.mesh
+    simu.add_dirichlet(mesh.Nodes_Point(pts[0]), [0] * simu.Get_dof_n(), simu.Get_unknowns())
+    for p in pts[1:-1]:
+        simu.add_connection_fixed(mesh.Nodes_Point(p))
     F = R @ np.asarray(case["F"], dtype=float)
-    comps = ["x", "y", "z"][:dim]
-    simu.add_neumann(mesh.Nodes_Point(p2), [float(x) for x in F[:dim]], comps)
+    tip = mesh.Nodes_Point(pts[-1])
+    simu.add_neumann(tip, [float(x) for x in F[:dim]], ["x", "y", "z"][:dim])
+    M = np.asarray(case.get("M", [0, 0, 0]), dtype=float)
+    if np.abs(M).max() > 0:
+        Mm = det * (R @ M)                       # moments are pseudo-vectors
+        if dim == 2:
+            simu.add_neumann(tip, [float(Mm[2])], ["rz"])
+        else:
+            simu.add_neumann(tip, [float(x) for x in Mm], ["rx", "ry", "rz"])
     simu.Solve()
-    tip = mesh.Nodes_Point(p2)
-    out = {}
-    for r in (["ux", "uy", "rz"] if dim == 2 else ["ux", "uy", "uz", "rx", "ry", "rz"]):
-        out[r] = float(simu.Result(r, nodeValues=True)[tip][0])
-    return out, R
+    names = ["ux", "uy", "rz"] if dim == 2 else ["ux", "uy", "uz", "rx", "ry", "rz"]
+    res = {r: np.asarray(simu.Result(r, nodeValues=True), dtype=float).reshape(-1) for r in names}
+    return res, R, t, np.array(mesh.coord, dtype=float)
 
 
 def run_beam(case):
-    r1, _ = solve_beam(case, False)
-    r2, R = solve_beam(case, True)
+    r1, _, _, c1 = solve_beam(case, False)
+    r2, R, t, c2 = solve_beam(case, True)
     dim = case["dim"]
     det = float(np.linalg.det(R))
-    if dim == 2:
-        u1 = np.array([r1["ux"], r1["uy"], 0.0])
-        u2 = np.array([r2["ux"], r2["uy"], 0.0])
-        back = R.T @ u2
-        th1, th2 = r1["rz"], det * r2["rz"]            # in-plane rotation: pseudo-scalar
-        eu = float(np.abs(back[:2] - u1[:2]).max() / np.abs(u1[:2]).max())
-        et = abs(th2 - th1) / abs(th1)
-        return {"err": max(eu, et), "err_u": eu, "err_rot": et, "what": "tip displacement and rotation transformed back",
-                "sample": {"original": r1, "moved": r2, "moved_back": [float(back[0]), float(back[1]), th2]}}
-    u1 = np.array([r1["ux"], r1["uy"], r1["uz"]])
-    u2 = np.array([r2["ux"], r2["uy"], r2["uz"]])
-    w1 = np.array([r1["rx"], r1["ry"], r1["rz"]])
-    w2 = np.array([r2["rx"], r2["ry"], r2["rz"]])
-    bu, bw = R.T @ u2, det * (R.T @ w2)
+    # node correspondence through the moved coordinates (rigid joints duplicate nodes: match in order)
+    exp = c1 @ R.T + t
+    used, idx = set(), []
+    for x in exp:
+        d = np.linalg.norm(c2 - x, axis=1)
+        for k in np.argsort(d):
+            if k not in used:
+                used.add(int(k))
+                idx.append(int(k))
+                break
+    idx = np.array(idx)
+    if np.abs(c2[idx] - exp).max() > 1e-6 * max(1.0, np.abs(exp).max()):
+        return {"raises": "node correspondence between the original and the moved beam mesh failed"}
+    n = len(idx)
+    u1 = np.zeros((n, 3))
+    u2 = np.zeros((n, 3))
+    w1 = np.zeros((n, 3))
+    w2 = np.zeros((n, 3))
+    for k, nm in enumerate(["ux", "uy", "uz"][:dim]):
+        u1[:, k], u2[:, k] = r1[nm], r2[nm][idx]
+    for k, nm in enumerate(["rx", "ry", "rz"]):
+        if nm in r1:
+            w1[:, k], w2[:, k] = r1[nm], r2[nm][idx]
+    bu = u2 @ R                      # rows R^T u'
+    bw = det * (w2 @ R)              # pseudo-vector
     eu = float(np.abs(bu - u1).max() / np.abs(u1).max())
     ew = float(np.abs(bw - w1).max() / np.abs(w1).max())
-    return {"err": max(eu, ew), "err_u": eu, "err_rot": ew, "what": "tip displacement and rotation vector transformed back",
-            "sample": {"original": r1, "moved": r2, "moved_back_u": bu.tolist(), "moved_back_rot": bw.tolist()}}
+    i = int(np.argmax(np.abs(w1).max(axis=1)))
+    return {"err": max(eu, ew), "err_u": eu, "err_rot": ew, "what": "nodal displacements and rotations (pseudo-vector) of the moved structure transformed back",
+            "sample": {"node": i, "u_original": u1[i].tolist(), "u_moved_back": bu[i].tolist(), "rot_original": w1[i].tolist(), "rot_moved_back": bw[i].tolist(),
+                       "rot_moved_raw": w2[i].tolist(), "det_R": det}}
 
 
 def run_Bcheck(case):
@@ -201,6 +333,8 @@ def run_case(case):
             return run_beam(case)
         if case["kind"] == "Bcheck":
             return run_Bcheck(case)
+        if case["kind"] == "motion":
+            return run_motion(case)
         return {"raises": "unknown kind"}
     except Exception as ex:  # noqa
         import traceback
